@@ -577,6 +577,9 @@ def violates (c : Config) : F → Bool
 def allocLimit : Int := 35184372088832
 def uintRange : Int := 18446744073709551616
 def maxInt : Int := 9223372036854775807
+/-- `makechan` panics when `elemsize * n > maxAlloc - hchanSize` (2^48 - 96 on linux/amd64); the
+channels of the interface listeners carry pointers (8 bytes). -/
+def chanAllocLimit : Int := 281474976710560
 
 inductive Panic
   | lruSize (what : F)      -- `gcache.New(n)` with `n ≤ 0`
@@ -587,6 +590,7 @@ inductive Panic
   | badPrefix               -- `subnetKey` panics when `ip.Prefix(len)` fails
   | makeslice               -- `NewRequestCounter(count, _)` allocates `count + 1` stamps
   | makechan                -- `NewChanSemaphore(n)` with `n` beyond the `int` range
+  | chanAlloc               -- `make(chan *T, n)` in `bindtodevice.Manager.Add` with `8n` beyond `maxAlloc`
   deriving DecidableEq, Repr
 
 deriving instance DecidableEq for Except
@@ -624,6 +628,7 @@ def build (c : Config) : Except Panic Unit := do
   lru .geoIp c.geoIp
   -- bindtodevice channels
   if c.pIl ∧ c.ilBuf < 0 then throw .chanSize
+  if c.pIl ∧ c.ilBuf * 8 > chanAllocLimit then throw .chanAlloc
   -- newServerDNS: zero means default; negative or too large panics
   if c.dnsIdle < 0 ∨ c.dnsIdle > maxIdle then throw .idleTimeout
 
@@ -734,6 +739,81 @@ def limStart (stop resume n : Nat) : Nat × Nat :=
 def startListeners (c : Config) : Nat × Nat :=
   if c.clEnabled then limStart c.clStop.toNat c.clResume.toNat (streamN c).toNat
   else ((streamN c).toNat, 0)
+
+
+/-! ## Enumerations that refer to the process environment (round 4)
+
+`check.kv.type` and `ratelimit.allowlist.type` select which environment variables the builder
+dereferences: `environment.validateFromValidConfig` must reject what `remoteKVConfig.newRemoteKV`
+(`builder.initDNSCheck`) and `builder.initRateLimiter` cannot work with. -/
+
+/-- State of a URL-valued variable. -/
+inductive UrlSt | absent | badScheme | good deriving DecidableEq, Repr
+
+structure Env where
+  kvUrl : UrlSt := .absent          -- DNSCHECK_REMOTEKV_URL (gRPC)
+  rlUrl : UrlSt := .absent          -- BACKEND_RATELIMIT_URL (gRPC)
+  consulUrl : UrlSt := .good        -- CONSUL_ALLOWLIST_URL (HTTP)
+  kvSize : Int := 0                 -- DNSCHECK_CACHE_KV_SIZE
+  redisAddr : Bool := false         -- REDIS_ADDR is not empty
+  redisIdle : Int := 30000000000    -- REDIS_IDLE_TIMEOUT
+  redisMaxActive : Int := 10
+  redisMaxIdle : Int := 3
+
+inductive EnvVar | kvUrl | kvSize | redisAddr | redisIdle | redisMaxActive | redisMaxIdle | rlUrl | consulUrl
+  deriving DecidableEq, Repr
+
+def EnvVar.name : EnvVar → String
+  | .kvUrl => "DNSCHECK_REMOTEKV_URL" | .kvSize => "DNSCHECK_CACHE_KV_SIZE" | .redisAddr => "REDIS_ADDR"
+  | .redisIdle => "REDIS_IDLE_TIMEOUT" | .redisMaxActive => "REDIS_MAX_ACTIVE" | .redisMaxIdle => "REDIS_MAX_IDLE"
+  | .rlUrl => "BACKEND_RATELIMIT_URL" | .consulUrl => "CONSUL_ALLOWLIST_URL"
+
+def needUrl (v : EnvVar) (u : UrlSt) : List EnvVar := if u = .good then [] else [v]
+
+/-- `environment.validateFromValidConfig` (errors are joined; the profile URLs are always set here). -/
+def envCheck (c : Config) (e : Env) : List EnvVar :=
+  (if c.kvType = "backend" then needUrl .kvUrl e.kvUrl
+   else if c.kvType = "cache" then (if e.kvSize ≤ 0 then [.kvSize] else [])
+   else if c.kvType = "redis" then
+     (if e.redisAddr then [] else [.redisAddr]) ++ (if e.redisIdle ≤ 0 then [.redisIdle] else []) ++
+     (if e.redisMaxActive < 0 then [.redisMaxActive] else []) ++ (if e.redisMaxIdle < 0 then [.redisMaxIdle] else [])
+   else []) ++
+  (if c.alType = "consul" then needUrl .consulUrl e.consulUrl else needUrl .rlUrl e.rlUrl)
+
+inductive EnvPanic
+  | kvLru                   -- `agdcache.NewLRU` with a count ≤ 0
+  | nilUrl (v : EnvVar)     -- `&envs.X.URL` with the variable unset
+  | kvEnum                  -- `newRemoteKV` / `newRemoveKVPrefix` default branch
+  deriving DecidableEq, Repr
+
+/-- `builder.initDNSCheck` (→ `remoteKVConfig.newRemoteKV`) and `builder.initRateLimiter` as far as
+they touch the environment; a URL with a wrong scheme is a reported start-up error, not a panic. -/
+def kvBuild (c : Config) (e : Env) : Except EnvPanic Unit :=
+  if c.kvType = "backend" then (if e.kvUrl = .absent then .error (.nilUrl .kvUrl) else .ok ())
+  else if c.kvType = "cache" then (if e.kvSize ≤ 0 then .error .kvLru else .ok ())
+  else if c.kvType = "redis" ∨ c.kvType = "consul" then .ok ()
+  else .error .kvEnum
+
+def rlBuild (c : Config) (e : Env) : Except EnvPanic Unit :=
+  if c.alType = "backend" then (if e.rlUrl = .absent then .error (.nilUrl .rlUrl) else .ok ())
+  else if e.consulUrl = .absent then .error (.nilUrl .consulUrl) else .ok ()
+
+def envBuild (c : Config) (e : Env) : Except EnvPanic Unit :=
+  match kvBuild c e with
+  | .error p => .error p
+  | .ok _ => rlBuild c e
+
+/-- Declarative reading: the configuration needs variable `v` and the environment does not provide
+a usable value. -/
+def envViolates (c : Config) (e : Env) : EnvVar → Bool
+  | .kvUrl => c.kvType = "backend" && e.kvUrl ≠ .good
+  | .kvSize => c.kvType = "cache" && e.kvSize ≤ 0
+  | .redisAddr => c.kvType = "redis" && !e.redisAddr
+  | .redisIdle => c.kvType = "redis" && e.redisIdle ≤ 0
+  | .redisMaxActive => c.kvType = "redis" && e.redisMaxActive < 0
+  | .redisMaxIdle => c.kvType = "redis" && e.redisMaxIdle < 0
+  | .rlUrl => c.alType ≠ "consul" && e.rlUrl ≠ .good
+  | .consulUrl => c.alType = "consul" && e.consulUrl ≠ .good
 
 /-! ## Parsing stage (YAML → typed value) -/
 
